@@ -39,7 +39,7 @@ from rtc.api import clause, PASS, FAIL, TRIVIAL, SKIP, check
 from rtc import gen
 
 BUDGET = (100, 800)
-BOUNDS = ('d = 2..5, observed mode sizes 1..5 (+ 9, 12) (index values with gaps), full grids / doubled grids / sparse random '
+BOUNDS = ('d = 2..5, observed mode sizes 1..5 (+ 9, 12) (index values with gaps, also of both signs), full grids / doubled grids / sparse random '
           'subsets with duplicates (different y), y Gaussian / integer / additive / constant+spike / Gaussian scaled by 1e-8 .. 1e8; r in 2..5, '
           'noise in {0, 1e-10, 1e-3, 0.5} and rel_noise, orders 1 and 2 (rank 2 + pairs*n_max), only_near, int / Generator seeds; functional: d = 2..4, '
           'n = 2..6, m = 6n..10n points, lamb in {1e-7, 1e-3, 1}, boxes [-1,1], [0,2], [-3,5]')
@@ -54,6 +54,8 @@ def _data(shape, how, ykind, seed):
     d = len(shape)
     gaps = (seed % 2 == 1)
     dom = [np.sort(g.choice(2 * n + 1, size=n, replace=False)) if gaps else np.arange(n) for n in shape]
+    if seed % 4 == 3:                                 # index labels of both signs (centred labels such as -2..2)
+        dom = [dm - n for dm, n in zip(dom, shape)]
     J = gen.all_indices(shape)                      # positions
     if how == 'full':
         P = J
